@@ -448,7 +448,10 @@ class G:
             if "(" in ded:
                 ded = ""
             nm = "ghosts" if not self.pr("ghost_flavour", 0.3) else self.ch(["ghosts_owned", "ghosts_ref"])
-            gs = ", ".join(f"{self.ch(OTHER + ['0', '1'])}: {{ {self.ch(['1', '@.a', 'Default::default()', '@.x.clone()'])} }}" for _ in range(r.randrange(1, 3)))
+            # a stray child path: the entry is addressed to a nested struct no #[child_parents] declares (must be reported,
+            # for whichever flavour / counterpart the instruction applies to)
+            stray = self.ch(["base@", "a.b@", "0@"]) if self.pr("stray_child_ghost", 0.0) else ""
+            gs = ", ".join(f"{stray if r.random() < 0.7 else ''}{self.ch(OTHER + ['0', '1'])}: {{ {self.ch(['1', '@.a', 'Default::default()', '@.x.clone()'])} }}" for _ in range(r.randrange(1, 3)))
             attrs.append(Instr(nm, ded + gs, tag=("ghosts", None)))
             if self.pr("second_ghosts", 0.4):
                 c = self.ch(cparts)
@@ -697,6 +700,7 @@ class G:
             fields.append(Field(NAMES[k] if shape == "named" else None, self.ch(["i32", "String", "Inner", "m::Inner", "&'a str"]), fa))
         ghost_only = None
         ghost_only_more = []
+        drop_ghost_cp = False
         if used_prefixes and self.pr("ghost_only_child", 0.0):
             base = self.ch(used_prefixes)
             ghost_only = base + [self.ch(["gm", "gm", "5", "pp"])]
@@ -711,7 +715,8 @@ class G:
         if used_prefixes and not self.pr("drop_child_parents", 0.05):
             r.shuffle(used_prefixes) if self.pr("shuffle_cp", 0.5) else None
             keep = [pth for pth in used_prefixes if not self.pr("drop_cp_entry", 0.03)]
-            if ghost_only:
+            drop_ghost_cp = bool(ghost_only) and self.pr("drop_ghost_cp", 0.0)
+            if ghost_only and not drop_ghost_cp:
                 keep.append(ghost_only)
                 keep.extend(ghost_only_more)
             ded = (self.ch(cparts) + "| ") if self.pr("dedicated", 0.25) else ""
@@ -726,7 +731,7 @@ class G:
                     attrs.insert(len(attrs) - 1, cp2)
         if ghost_only:
             # a nested struct that no member is flattened into: it exists only through struct-level ghost entries
-            attrs.append(Instr(self.ch(["ghosts", "ghosts", "ghosts_owned"]), ".".join(ghost_only) + "@" + self.ch(["gx", "0"]) + ": { 9 }" + (", " + ".".join(ghost_only) + "@gy: { 10 }" if self.pr("x", 0.3) else "")
+            attrs.append(Instr(self.ch(["ghosts", "ghosts", "ghosts_owned"] if not (used_prefixes and drop_ghost_cp) else ["ghosts", "ghosts_owned", "ghosts_ref", "ghosts_ref"]), ".".join(ghost_only) + "@" + self.ch(["gx", "0"]) + ": { 9 }" + (", " + ".".join(ghost_only) + "@gy: { 10 }" if self.pr("x", 0.3) else "")
                                + "".join(", " + ".".join(q) + "@gz: { 11 }" for q in ghost_only_more), tag=("ghosts", None)))
         elif self.pr("ghosts", 0.15) and used_prefixes:
             pth = self.ch(used_prefixes)
@@ -872,13 +877,13 @@ PROFILES = {
     "generics": {"generics": 1.0, "generic_cpart": 0.7, "where_clause": 0.5, "max_fields": 2, "trailing_comma": 0.2, "multi_cpart": 0.3, "fallible": 0.3, "dedicated": 0.4},
     "expr": {"deep_expr": 0.8, "member_instr": 0.7, "ghost_field": 0.2, "ghosts": 0.2, "vars": 0.4, "update": 0.3, "quick_return": 0.15, "default_case": 0.3,
              "variant_map": 0.5, "max_fields": 3},
-    "parents": {"lit_args": 0.05, "parent_heavy": 0.8, "parent_depth": 3, "nested_parent": 0.45, "nested_instr": 0.5, "max_fields": 4, "fallible": 0.3, "multi_cpart": 0.5, "hints": 0.3,
+    "parents": {"lit_args": 0.05, "ghost_only_child": 0.2, "drop_ghost_cp": 0.5, "parent_heavy": 0.8, "parent_depth": 3, "nested_parent": 0.45, "nested_instr": 0.5, "max_fields": 4, "fallible": 0.3, "multi_cpart": 0.5, "hints": 0.3,
                 "dedicated": 0.45, "member_instr": 0.3, "update": 0.1, "vars": 0.1, "generic_cpart": 0.25, "second_parent": 0.5, "attr_params": 0.25, "child_pair": 0.2},
     "trait-repeat": {"vars": 0.4, "fallible": 0.3, "attr_params": 0.1, "enum_item": 0.3, "lit": 0.3, "multi_open": 0.12, "twin_names": 0.2},
     "shape-change": {"shape_change": 0.8, "update": 0.3, "shape_bare_ghost": 0.35, "shape_nameless": 0.25, "shape_multi": 0.5, "shape_mixed": 0.5, "shape_forget": 0.3, "multi_cpart": 0.4, "shape_ghost": 0.3, "fallible": 0.3, "max_variants": 3, "variant_map": 0.1, "member_try": 0.1, "multi_instr": 0.5},
     "unknowns": {"unknowns": 1.0, "max_fields": 3, "member_instr": 0.3, "multi_instr": 0.5, "max_variants": 3, "variant_map": 0.2},
     "faults": {"max_fields": 3, "member_instr": 0.4, "multi_cpart": 0.3, "fallible": 0.4, "drop_err": 0.15, "extra_err": 0.1, "ghost_field": 0.2, "ghost_default": 0.5,
-               "dedicated": 0.4, "ghosts": 0.2, "where_clause": 0.2, "hints": 0.4, "drop_child_parents": 0.3, "drop_cp_entry": 0.2, "type_hint": 0.3,
+               "dedicated": 0.4, "ghosts": 0.3, "stray_child_ghost": 0.4, "ghost_flavour": 0.5, "where_clause": 0.2, "hints": 0.4, "drop_child_parents": 0.3, "drop_cp_entry": 0.2, "type_hint": 0.3,
                "cp_unit": 0.08, "enum_ghost_idx": 0.3},
 }
 
